@@ -301,8 +301,8 @@ Example C10_engine_on_example :
 Proof. split; vm_compute; reflexivity. Qed.
 
 (* ---- known findings at the level of the route model: the header condition is an unanchored search, the capture
-   is anchored (kf_header_regex_unanchored), and header names are compared exactly by Route::capture
-   (kf_header_name_case): the model reproduces both *)
+   is anchored (kf_header_regex_unanchored): the model reproduces it.  Header names are compared case-insensitively
+   by Route::capture as by the matcher (exact comparison on the pinned code: repaired in /repo 71eaac6) *)
 Definition rule_hdr : rule10 :=
   {| r_path := lit "/h"; r_query := None; r_host := None;
      r_headers := [mk_sh (lit "X-Id") (lit "match_regex") (Some (lit "id=@id"))];
@@ -317,10 +317,10 @@ Lemma C10_known_header_unanchored :
   /\ route_capture rxE rt (req_hdr (lit "X-Id") (lit "id=12x")) = []
   /\ route_capture rxE rt (req_hdr (lit "X-Id") (lit "id=12")) = [(lit "id", lit "12")].
 Proof. cbn zeta. repeat split; vm_compute; reflexivity. Qed.
-Lemma C10_known_header_name_case :
+Lemma C10_header_name_case :
   let rt := into_route (mk_cfg10 false false false) rule_hdr in
   route_matches rxE (mk_cfg10 false false false) rt (req_hdr (lit "x-id") (lit "id=12")) = true
-  /\ route_capture rxE rt (req_hdr (lit "x-id") (lit "id=12")) = [].
+  /\ route_capture rxE rt (req_hdr (lit "x-id") (lit "id=12")) = [(lit "id", lit "12")].
 Proof. cbn zeta. split; vm_compute; reflexivity. Qed.
 
 Print Assumptions C10_substitute.
